@@ -200,11 +200,20 @@ Fixpoint tokens_of_line (n fuel : nat) (m : mem) (off : Z) (acc : list (list Z))
    chunk assumed, i.e. lines below 4096 bytes); at end of file -1 is returned and a
    fresh buffer is left UNINITIALISED.  [MemStream] is MemoryFileStream::readline:
    1024 bytes, std::istream::getline (buf, cap-1) drops the '\n' and always stores a
-   terminator; a line of more than cap-2 bytes sets failbit, which is never cleared:
-   the buffer is doubled up to 1 MiB in vain and the stream is dead afterwards. *)
+   terminator; a line of more than cap-2 bytes makes the buffer grow (grow_mem). *)
 Inductive skind : Type := FileStream | MemStream.
 
-Definition garbage : Z := 190.          (* 0xbe: what ASan's allocator puts into fresh memory *)
+Definition garbage : Z := 190.
+
+(* MemoryFileStream::readline as of /repo commit 5667f2e: when the line does not fit
+   (more than cap-2 bytes) failbit is cleared, the buffer is doubled and the SAME line
+   is continued behind what has been read, until it fits or the buffer has reached
+   1 MiB (then -1 is returned with failbit still set: the stream is dead). *)
+Fixpoint grow_mem (k : nat) (c len : Z) : Z :=
+  match k with
+  | O => c
+  | S k' => if (len <=? c - 2) || (1048576 <=? c) then c else grow_mem k' (2 * c) len
+  end.          (* 0xbe: what ASan's allocator puts into fresh memory *)
 
 Fixpoint take_line (s : list Z) : list Z * list Z * bool :=   (* line without '\n', rest, '\n' seen *)
   match s with
@@ -241,8 +250,9 @@ Definition fetch_line (k : skind) (prev : option mem) (s : list Z) : Z * mem * l
       | _ =>
           let '(l, r, nl) := take_line s in
           let len := Z.of_nat (length l) in
-          if len <=? c0 - 2 then (len + 1, mem_of c0 (l ++ [0]) old, r)
-          else (-1, mem_of (Z.max c0 1048576) [0] old, [])
+          let c := grow_mem 11 c0 len in
+          if len <=? c - 2 then (len + 1, mem_of c (l ++ [0]) old, r)
+          else (-1, mem_of c (firstn (Z.to_nat (c - 2)) l ++ [0]) old, [])
       end
   end.
 
@@ -291,6 +301,42 @@ Fixpoint tokens_stream (n fuel : nat) (k : skind) (s : list Z) (acc : list (list
             match tokens_of_line fuel fuel m 0 [] [] with
             | Done (toks, t2) =>
                 tokens_stream n' fuel k r (acc ++ toks)
+                              (oob || negb (in_boundsb (cap m) t1) || negb (in_boundsb (cap m) t2))
+            | OutOfFuel => OutOfFuel
+            | Crash w => Crash w
+            end
+      | OutOfFuel => OutOfFuel
+      | Crash w => Crash w
+      end
+  end.
+
+(* The code as it is in /repo now (commits 990a9b4, 336ceec): the tokenizer that does
+   not step over the terminator.  Same drivers as above around next_token_line_fixed. *)
+Fixpoint tokens_of_line_cur (n fuel : nat) (m : mem) (off : Z) (acc : list (list Z)) (tr : trace)
+  : res (list (list Z) * trace) :=
+  match n with
+  | O => OutOfFuel
+  | S k =>
+      match next_token_line_fixed fuel m off with
+      | Done (NoTok, _, _, t) => Done (rev acc, t ++ tr)
+      | Done (Tok b, m', off', t) => tokens_of_line_cur k fuel m' off' (b :: acc) (t ++ tr)
+      | OutOfFuel => OutOfFuel
+      | Crash w => Crash w
+      end
+  end.
+
+Fixpoint tokens_stream_cur (n fuel : nat) (k : skind) (s : list Z) (acc : list (list Z)) (oob : bool)
+  : res (list (list Z) * bool) :=
+  match n with
+  | O => OutOfFuel
+  | S n' =>
+      match readline (S (length s)) fuel k None s [] with
+      | Done (rc, m, r, t1) =>
+          if rc <? 0 then Done (acc, oob || negb (in_boundsb (cap m) t1))
+          else
+            match tokens_of_line_cur fuel fuel m 0 [] [] with
+            | Done (toks, t2) =>
+                tokens_stream_cur n' fuel k r (acc ++ toks)
                               (oob || negb (in_boundsb (cap m) t1) || negb (in_boundsb (cap m) t2))
             | OutOfFuel => OutOfFuel
             | Crash w => Crash w
